@@ -5,6 +5,10 @@ MCNodes == {[file |-> 0, line |-> 1, col |-> 4, name |-> "ab", builtin |-> FALSE
             [file |-> 1, line |-> 0, col |-> 2, name |-> "", builtin |-> FALSE],
             [file |-> 0, line |-> 3, col |-> 0, name |-> "cde", builtin |-> FALSE],
             [file |-> 0, line |-> 0, col |-> 0, name |-> "x", builtin |-> TRUE]}
+(* generated files start with an unmapped line: the generator starts after `write("\n")` *)
+InitAfterFirstLine == /\ lines = <<0, 0>> /\ indent = 0 /\ pending = TRUE /\ buf = <<>>
+                      /\ lastGL = 0 /\ lastGC = 0 /\ lastOL = 0 /\ lastOC = 0 /\ lastName = 0 /\ lastFile = 0
+                      /\ names = <<>> /\ cache = <<>> /\ entries = <<>> /\ calls = <<[op |-> "write", chunk |-> <<0, 0>>]>>
 Emitting == FALSE
 EmittingOn == TRUE
 (* spec -> impl: one case per complete call sequence *)
